@@ -1,12 +1,12 @@
 /-
 The read arithmetic of the header stores as the CODE defines it (translated from headerfs/store.go
-and file.go on every run, Gen/Trans.lean): `FetchHeaderAncestors` of both stores against the model's
+and file.go on every run, Gen/TransStore.lean): `FetchHeaderAncestors` of both stores against the model's
 `Store.fetchAncestors` / `readRange`, and the offset / length `readHeadersFromFile` asks the file for.
 -/
-import Neutrino.Gen.Trans
+import Neutrino.Gen.TransStore
 import Neutrino.Model.StoreReads
 namespace Neutrino.Store
-open Neutrino.Gen.Trans Neutrino.GoInt
+open Neutrino.Gen.TransStore Neutrino.GoInt
 
 /-- the index lookup `heightFromHash` of a durable state, as the translated code sees it -/
 def heightFn (d : Durable) (id : Atom) : Nat × Bool :=
